@@ -53,7 +53,10 @@ def digest(df):
 
 
 def gen_frame(rng, pk):
-    n_ids = int(rng.integers(1, 9))
+    # (any number of individuals: also more than a colour palette has
+    # entries - plotly's qualitative palettes have 10 and 24)
+    n_ids = int(rng.integers(1, 9)) if rng.random() < 0.8 else \
+        int(rng.integers(9, 30))
     style = ['int', 'float', 'str'][int(rng.integers(3))]
     labels = [{'int': 3 * i + 1, 'float': i + 0.5, 'str': 'id-%d' % i}[style]
               for i in range(n_ids)]
@@ -365,7 +368,8 @@ def simulation_case(ctx, rng, idx):
 
 
 def residual_case(ctx, rng, idx):
-    n_ids = int(rng.integers(1, 5))
+    n_ids = int(rng.integers(1, 5)) if rng.random() < 0.8 else \
+        int(rng.integers(9, 30))
     times = np.array([0.5, 1.0, 2.0, 4.0])[:int(rng.integers(1, 5))]
     meas = pd.DataFrame([
         {'ID': i + 1, 'Time': float(t), 'Observable': 'conc',
